@@ -696,8 +696,9 @@ func parseShortTermRPS(r *bits.EBSPReader, idx, numSTRefPicSets byte, sps *SPS) 
 			deltaIdx = byte(r.ReadExpGolomb() + 1)
 			// parse delta_idx_minus1
 		}
-		if deltaIdx > idx {
+		if deltaIdx == 0 || deltaIdx > idx {
 			r.SetError(fmt.Errorf("deltaIdx > idx in parseShortTermRPS"))
+			return stps
 		}
 		/* deltaRpsSign */ _ = r.Read(1)
 		/* absDeltaRpsMinus1*/ _ = r.ReadExpGolomb()
